@@ -6,3 +6,5 @@ def _reg(pid, engine="jit"):
     CHECKS[pid] = {"module": f"vpkit.checks.{pid.lower()}", "engine": engine}
 
 _reg("C01")
+_reg("C02")
+_reg("C03")
